@@ -14,6 +14,7 @@ mod spans;
 mod values;
 mod pegcmd;
 mod ptree;
+mod total;
 
 use std::io::{BufRead, Write};
 use std::panic::{catch_unwind, AssertUnwindSafe};
@@ -48,6 +49,7 @@ fn main() {
         "value" => values::handle,
         "peg" => pegcmd::handle,
         "ptree" => ptree::handle,
+        "total" => total::handle,
         _ => {
             eprintln!("unknown command {cmd}");
             std::process::exit(2);
